@@ -17,14 +17,26 @@ for d in sorted(os.listdir(os.path.join(ROOT, "seeded"))):
     if not os.path.exists(mp):
         continue
     m = json.load(open(mp))
-    res = rows.get(d, [])
-    if res:
-        m["detected_by"] = [{"check": p, "tier": "quick", "detected": rc == "rc=1", "first_counterexample": ce} for p, rc, ce in res]
+    # merge: results persist in meta.json; a newer run of the same check replaces the older one
+    merged = {e["check"]: e for e in (m.get("detected_by") or [])}
+    for p, rc, ce in rows.get(d, []):
+        prev = merged.get(p)
+        entry = {"check": p, "tier": "quick", "detected": rc == "rc=1", "first_counterexample": ce}
+        if prev and not prev.get("detected") and entry["detected"]:
+            entry["note"] = "missed by the first version of the check; detected after the check was strengthened (see DESIGN.md section 13)"
+        if prev and prev.get("note") and "note" not in entry:
+            entry["note"] = prev["note"]
+        merged[p] = entry
+    if merged:
+        m["detected_by"] = list(merged.values())
         json.dump(m, open(mp, "w"), indent=1)
-    for p, rc, ce in res:
-        ce = ce.replace("|", "\\|")
-        out.append(f"| {d} | {m.get('breaks_property')} | {p} | {'detected' if rc == 'rc=1' else 'not detected (' + rc + ')'} | `{ce[:160]}` |")
-    if not res:
+    for e in merged.values():
+        ce = (e.get("first_counterexample") or "").replace("|", "\\|")
+        res_txt = "detected" if e["detected"] else "not detected"
+        if e.get("note"):
+            res_txt += " (after strengthening)" if e["detected"] else ""
+        out.append(f"| {d} | {m.get('breaks_property')} | {e['check']} | {res_txt} | `{ce[:160]}` |")
+    if not merged:
         out.append(f"| {d} | {m.get('breaks_property')} | - | not run yet | |")
 open(os.path.join(ROOT, "seeded", "RESULTS.md"), "w").write("\n".join(out) + "\n")
 print(len(rows), "seeds with results")
